@@ -95,3 +95,29 @@ def selection_spec(labels: Sequence[str], deps: Dict[str, List[str]], R: Optiona
 
 def perms(n: int) -> List[Tuple[int, ...]]:
     return list(itertools.permutations(range(n)))
+
+
+def watchdog(prop_of: Callable[[Any], str]) -> Callable[[Callable[..., Any]], Callable[..., Any]]:
+    """Decorator for harnesses running on the real pool / loop: a scheduler that spins (executes an
+    unreasonable number of lines in one path) is reported as a violation instead of hanging the check."""
+    import functools
+
+    from sx import env as E
+
+    def deco(h: Callable[..., Any]) -> Callable[..., Any]:
+        @functools.wraps(h)
+        def wrapped(cfg: Any, c: Ctx) -> Any:
+            E.install_watchdog()
+            E.watch(E.Budget())
+            try:
+                return h(cfg, c)
+            except E.Spin as e:
+                E.watch(None)
+                c.check(False, "a call does not terminate (scheduler spins): %s" % e, prop=prop_of(cfg))
+                raise
+            finally:
+                E.watch(None)
+
+        return wrapped
+
+    return deco
